@@ -172,7 +172,8 @@ def leaves(o, path='result', seen=None, depth=0):
         except TypeError:
             d = {}
         for k in sorted(d):
-            out += leaves(d[k], '%s.%s' % (path, k), seen, depth + 1)
+            if not k.startswith('_'):        # private attributes are not part of the result
+                out += leaves(d[k], '%s.%s' % (path, k), seen, depth + 1)
     return out
 
 
@@ -275,7 +276,26 @@ def is_readonly_error(e):
     return isinstance(e, ValueError) and ('read-only' in str(e) or 'not writeable' in str(e) or 'WRITEABLE' in str(e))
 
 
-def check_case(call_src, variant, seed, clauses=('args', 'repeat', 'uninit', 'result-mutation')):
+def trash_args(A):
+    """what a caller may do with its own arrays after a call: reuse them for something else"""
+    n = 0
+    for label, arr, base, before in A.made:
+        try:
+            base.flags.writeable = True
+            if base.size:
+                if base.dtype.kind in 'fc':
+                    base[...] = 3.75e9
+                elif base.dtype.kind in 'iu':
+                    base[...] = 77
+                elif base.dtype.kind == 'b':
+                    base[...] = ~base
+                n += 1
+        except Exception:
+            pass
+    return n
+
+
+def check_case(call_src, variant, seed, clauses=('args', 'repeat', 'uninit', 'result-mutation', 'arg-reuse')):
     """Run the C18 clauses for one call on one argument variant.
     Returns (failures, info): failures = list of (clause, detail)."""
     fails = []
@@ -313,5 +333,14 @@ def check_case(call_src, variant, seed, clauses=('args', 'repeat', 'uninit', 're
             if d4 != d1:
                 fails.append(('result-mutation', 'after the caller overwrote the returned arrays, the next '
                               'identical call differs at %s' % ', '.join(diff_paths(d1, d4)[:4])))
+    if 'arg-reuse' in clauses and e1 is None:
+        # the library must not keep references to the caller's arrays: after the caller reused
+        # (overwrote) the arrays it had passed, an identical call on new arrays gives the same result
+        if trash_args(A1):
+            A5, r5, e5 = one_call(call_src, variant, seed, float('nan'))
+            d5 = exc_digest(e5) if e5 is not None else digest(r5)
+            if d5 != d1 and not any(f[0] in ('repeat', 'result-mutation') for f in fails):
+                fails.append(('arg-reuse', 'after the caller overwrote the arrays it had passed, an identical call on '
+                              'new arrays with the same contents differs at %s' % ', '.join(diff_paths(d1, d5)[:4])))
     return fails, info
 '''
